@@ -317,10 +317,12 @@ def main(argv=None) -> int:
     for path, sig, msg, n in new_lines:
         print(f"  [{sig}] x{n}: {msg}")
         print(f"VIOLATION property={pid} replay={path}")
-    if agg["evals"] == 0 or agg["nontrivial"] < 2:
+    if new_lines:
+        return 1
+    if agg["evals"] == 0 or agg["nontrivial"] < 2:  # a silent run must not be a vacuous one
         print("HARNESS-ERROR: vacuous run (no non-trivial cases)")
         return 2
-    return 1 if new_lines else 0
+    return 0
 
 
 if __name__ == "__main__":
